@@ -87,6 +87,17 @@ struct sink_state_t
     const function_t*   function{nullptr};
     int64_t             max_evals{0};
     int64_t             capacity{0}; // of the bundle: max_size + 1
+    // run-time monitor of the contract of the quadratic sub-problem, over EVERY `bundle.solve` of the run
+    int64_t qp_count{0};     // calls with >= 3 rows (the QP solver; 1 and 2 rows are the analytic paths)
+    double  qp_maxdev{0};    // max |sum(alpha) - 1|
+    double  qp_minalpha{0};  // min alpha_i (0 when all are non-negative)
+    double  qp_maxgap{0};    // max relative Frank-Wolfe gap  (alpha'gr - min gr) / max_i sum|terms of gr_i|,  gr = S S' alpha + miu e
+    double  qp_maxgap2{0};   // the same over the calls with 2 rows (analytic path)
+    // the verdict of the QP solver itself (src/program/solver.cpp `done`: converged iff feasible && max(eta, rdual, rprim) <
+    // epsilon), reconstructed from its `program.normalized` (a solve begins) / `program.done` records
+    bool    qp_claims{false};
+    int64_t qp_unconverged{0}; // calls (>= 3 rows) the QP solver did not report converged for (bundle.cpp:77-80 only logs)
+    double  qp_maxgap_unconv{0};
 };
 
 thread_local sink_state_t g_sink;
@@ -115,6 +126,17 @@ bool skipped(const char* tag)
 
 void sink(const char* tag, const double* values, size_t count)
 {
+    if (g_sink.pass == 1)
+    {
+        if (std::strcmp(tag, "program.normalized") == 0)
+        {
+            g_sink.qp_claims = false;
+        }
+        else if (std::strcmp(tag, "program.done") == 0 && count >= 5)
+        {
+            g_sink.qp_claims = values[1] != 0.0 && std::max({values[2], values[3], values[4]}) < values[0];
+        }
+    }
     if (skipped(tag))
     {
         return;
@@ -124,6 +146,66 @@ void sink(const char* tag, const double* values, size_t count)
         static_cast<int64_t>(values[0]) + 1 >= s.capacity)
     {
         throw overflow_t{static_cast<int64_t>(values[0]), s.capacity};
+    }
+    if (s.pass == 1 && std::strcmp(tag, "bundle.solve") == 0 && s.function != nullptr)
+    {
+        // record layout: miu, size, fx, (n, x...), (size, alpha...), (size, e...), (size * n, S...)
+        const auto n    = static_cast<size_t>(s.function->size());
+        const auto size = static_cast<size_t>(values[1]);
+        if (count == 3 + (1 + n) + 2 * (1 + size) + (1 + size * n))
+        {
+            const double  miu = values[0];
+            const double* al  = values + 3 + (1 + n) + 1;
+            const double* e   = al + size + 1;
+            const double* S   = e + size + 1;
+            double        sum = 0, mn = 0;
+            std::vector<double> sbar(n, 0.0), sabs(n, 0.0), gr(size, 0.0);
+            for (size_t i = 0; i < size; ++i)
+            {
+                sum += al[i];
+                mn = std::min(mn, al[i]);
+                for (size_t j = 0; j < n; ++j)
+                {
+                    sbar[j] += al[i] * S[i * n + j];
+                    sabs[j] += std::fabs(al[i] * S[i * n + j]);
+                }
+            }
+            double agr = 0, mgr = std::numeric_limits<double>::infinity(), sc = 1e-300;
+            for (size_t i = 0; i < size; ++i)
+            {
+                double v = miu * e[i], va = std::fabs(miu * e[i]);
+                for (size_t j = 0; j < n; ++j)
+                {
+                    v += S[i * n + j] * sbar[j];
+                    va += std::fabs(S[i * n + j]) * sabs[j];
+                }
+                gr[i] = v;
+                agr += al[i] * v;
+                mgr = std::min(mgr, v);
+                sc  = std::max(sc, va); // the size of the terms of the gradient (what rounding can move)
+            }
+            const double gap = (agr - mgr * sum) / sc;
+            if (size >= 3)
+            {
+                s.qp_count += 1;
+                s.qp_maxdev   = std::max(s.qp_maxdev, std::fabs(sum - 1.0));
+                s.qp_minalpha = std::min(s.qp_minalpha, mn);
+                if (s.qp_claims && miu <= 1e8)
+                {
+                    s.qp_maxgap = std::max(s.qp_maxgap, gap);
+                }
+                else
+                {
+                    s.qp_unconverged += 1;
+                    s.qp_maxgap_unconv = std::max(s.qp_maxgap_unconv, gap);
+                }
+                s.qp_claims = false;
+            }
+            else if (size == 2)
+            {
+                s.qp_maxgap2 = std::max(s.qp_maxgap2, gap);
+            }
+        }
     }
     if (s.pass == 1)
     {
@@ -327,6 +409,17 @@ void project(const case_t& c, const std::vector<rec_t>& recs, bool at_start, out
             have_begin = true;
             have_kept  = false;
             have_solve = false;
+            // which call of the outer loop this is, and with which point
+            {
+                const auto fy = rd.f();
+                rd.f(); // fx
+                rd.f(); // size
+                const auto y = rd.l();
+                o << "outer";
+                gI(o, serious != 0.0 ? 1 : 0);
+                gL(o, y);
+                gF(o, fy);
+            }
         }
         else if (r.tag == "bundle.append.kept")
         {
@@ -377,7 +470,7 @@ void project(const case_t& c, const std::vector<rec_t>& recs, bool at_start, out
         }
         else if (r.tag == "csearch.iter")
         {
-            rd.f(); // miu
+            const auto miu = rd.f();
             const auto t = rd.f();
             rd.f(); // epsilon
             rd.f(); // fx
@@ -437,6 +530,7 @@ void project(const case_t& c, const std::vector<rec_t>& recs, bool at_start, out
                 }
                 gF(o, next->v.at(1));
             }
+            gF(o, miu); // the proximity parameter the outer loop handed to the search
         }
         else if (r.tag == "csearch.end")
         {
@@ -477,6 +571,12 @@ void project(const case_t& c, const std::vector<rec_t>& recs, bool at_start, out
             gB(o, gHg < std::numeric_limits<double>::epsilon());
             have_ell = true;
         }
+        else if (r.tag == "run.end")
+        {
+            // the status of the returned state (0 max_iters, 1 converged, 2 failed, 3 anything else)
+            o << "final";
+            gI(o, static_cast<int64_t>(rd.f()));
+        }
         else
         {
             throw std::logic_error("unknown trace tag " + r.tag);
@@ -497,6 +597,10 @@ std::string run_case(case_t& c, const std::string& line, std::string& aug)
     run(c, evals);
     const auto nnull    = g_sink.nnull;
     const auto nserious = g_sink.nserious;
+    const auto qp_count = g_sink.qp_count;
+    const auto qp_maxdev = g_sink.qp_maxdev, qp_minalpha = g_sink.qp_minalpha, qp_maxgap = g_sink.qp_maxgap,
+               qp_maxgap2 = g_sink.qp_maxgap2, qp_maxgap_unconv = g_sink.qp_maxgap_unconv;
+    const auto qp_unconverged = g_sink.qp_unconverged;
     const auto tags   = std::move(g_sink.recs);
     const auto counts = std::move(g_sink.counts);
     const auto N      = tags.size();
@@ -566,10 +670,21 @@ std::string run_case(case_t& c, const std::string& line, std::string& aug)
     g_sink.wend   = wend;
     int64_t evals2 = 0;
     const auto state = run(c, evals2);
-    const auto recs  = std::move(g_sink.recs);
+    auto recs = std::move(g_sink.recs);
     if (evals2 != evals || g_sink.index != N)
     {
         throw std::logic_error("the two passes differ");
+    }
+    if (wend == N)
+    {
+        // the window reaches the end of the run: the status of the returned state, as a pseudo record
+        rec_t r;
+        r.tag = "run.end";
+        r.v   = {state.status() == solver_status::max_iters   ? 0.0
+                 : state.status() == solver_status::converged ? 1.0
+                 : state.status() == solver_status::failed    ? 2.0
+                                                              : 3.0};
+        recs.push_back(std::move(r));
     }
 
     // augmented op: the op + numeric environment + the raw window
@@ -594,7 +709,8 @@ std::string run_case(case_t& c, const std::string& line, std::string& aug)
         std::vector<double> x(state.x().begin(), state.x().end());
         o.flist(x);
     }
-    o << state.fcalls() << state.gcalls() << evals << static_cast<int64_t>(N) << nnull << nserious << "trace";
+    o << state.fcalls() << state.gcalls() << evals << static_cast<int64_t>(N) << nnull << nserious << "qp" << qp_count << qp_maxdev
+      << qp_minalpha << qp_maxgap << qp_maxgap2 << qp_unconverged << qp_maxgap_unconv << "trace";
     project(c, recs, wbegin == 0, o);
     return o.str();
 }
